@@ -16,4 +16,17 @@ open B C12
 def K1 (transparent : Bool) (msgs : List Msg) : Bool :=
   msgs ≠ [] && (if transparent then !transparentSafe (encode msgs) else !wireSafe (encode msgs))
 
+/-- K1 as far as the clause `encode-faithful` is concerned: the raw encoding contains CR or LF, which
+    `Cookie`'s sanitiser replaces by a space (so the issued value no longer decodes to the messages).
+    Any other unfaithful encoding is NOT part of the finding. -/
+def K1faithful (msgs : List Msg) : Bool :=
+  msgs ≠ [] && (encode msgs).any fun c => c = 10 || c = 13
+
+/-- the region of K1 for a failing clause of the round-trip specs -/
+def K1for (clause : Option String) (transparent : Bool) (msgs : List Msg) : Bool :=
+  match clause with
+  | some "wire-safe" => K1 transparent msgs
+  | some "encode-faithful" => K1faithful msgs
+  | _ => false
+
 end C12.Known
